@@ -42,6 +42,7 @@ inductive Sub (cfg : Cfg) (P : Prog) (n : Nat) : Task × St → Task × St → P
   | throwArg e σ : Sub cfg P n (.ev (.throw e), σ) (.ev e, σ)
   | retArg e σ : Sub cfg P n (.ev (.ret e), σ) (.ev e, σ)
   | mkListArgs es σ : Sub cfg P n (.ev (.mkList es), σ) (.evs es [], σ)
+  | interpHoles t es σ : Sub cfg P n (.ev (.emitI t es), σ) (.evs es [], σ)
   | indexArgs l i σ : Sub cfg P n (.ev (.index l i), σ) (.evs [l, i] [], σ)
   | pushArgs l e σ : Sub cfg P n (.ev (.push l e), σ) (.evs [l, e] [], σ)
   | setIdxArgs l i e σ : Sub cfg P n (.ev (.setIdx l i e), σ) (.evs [l, i, e] [], σ)
